@@ -4,6 +4,7 @@ import (
 	"fmt"
 	"go/ast"
 	"go/token"
+	"sort"
 	"strconv"
 	"strings"
 )
@@ -469,6 +470,43 @@ func genPrinter(c *ctx, s *schema) {
 		fmt.Fprintf(&b, "def printer_%d : List POp := [%s]\n", i, strings.Join(ops, ", "))
 	}
 	writeTable(&b, "printerTab", "List POp", "printer_", len(s.Kinds))
+	// the literal lexemes by interned id, as bytes (for the executable printer model)
+	{
+		used := map[int]bool{}
+		var walkD func(d *dflt)
+		walkD = func(d *dflt) {
+			if d == nil {
+				return
+			}
+			if d.Op == "lit" {
+				used[c.intern("lit:"+d.Lit)] = true
+			}
+			walkD(d.A)
+			walkD(d.B)
+		}
+		for _, ops := range tabs {
+			for _, o := range ops {
+				walkD(o.D)
+				if o.Op == "sep" {
+					used[c.intern("lit:"+o.Lit)] = true
+				}
+			}
+		}
+		var ids []int
+		for id := range used {
+			ids = append(ids, id)
+		}
+		sort.Ints(ids)
+		var rows []string
+		for _, id := range ids {
+			var bs []string
+			for _, ch := range []byte(strings.TrimPrefix(c.nameList[id], "lit:")) {
+				bs = append(bs, fmt.Sprint(int(ch)))
+			}
+			rows = append(rows, fmt.Sprintf("(%d, [%s])", id, strings.Join(bs, ", ")))
+		}
+		fmt.Fprintf(&b, "def printerLits : List (Nat × List Nat) := [%s]\n", strings.Join(rows, ", "))
+	}
 	b.WriteString("end PhpVerif.Gen\n")
 	writeIfChanged(c.out+"/PrinterTab.lean", b.String())
 	c.side["printer"] = tabs
